@@ -50,8 +50,15 @@ impl vstd::std_specs::convert::FromSpecImpl<BuiltManifest> for PublishedItem<Pub
     open spec fn from_spec(v: BuiltManifest) -> PublishedManifest { v.0 }
 }
 impl From<BuiltManifest> for PublishedItem<PublishedItemManifest> { fn from(m: BuiltManifest) -> (r: Self) ensures r == m.0 { m.0 } }
+/// opaque model of the revocation list: which (serial, expiry) pairs it carries; `expired` = expired when remove_expired reads the clock
+pub uninterp spec fn rev_has(r: Revocations, serial: Serial, expires: Time) -> bool;
+pub uninterp spec fn expired(t: Time) -> bool;
 impl Revocations {
-    #[verifier::external_body] pub fn remove_expired(&mut self) -> (r: Vec<Revocation>) { unimplemented!() }
+    // iter().partition(closure): outside engine V; contract ASSUMED (same clauses as in unit c03_keyobjectset)
+    #[verifier::external_body] pub fn remove_expired(&mut self) -> (r: Vec<Revocation>)
+        ensures forall |s: Serial, t: Time| rev_has(*old(self), s, t) && !expired(t) ==> #[trigger] rev_has(*final(self), s, t),
+                forall |s: Serial, t: Time| #[trigger] rev_has(*final(self), s, t) ==> rev_has(*old(self), s, t)
+    { unimplemented!() }
 }
 impl CertInfoReceived {
     #[verifier::external_body] pub fn vx_subject(&self) -> (r: &Name) { unimplemented!() }
@@ -109,6 +116,8 @@ def build():
                  ('numbers_agree', 'r is Ok ==> crl_number(final(self).crl) == final(self).revision.number && mft_number(final(self).manifest) == final(self).revision.number'),
                  ('windows_agree', 'r is Ok ==> crl_window(final(self).crl) == mft_window(final(self).manifest)'),
                  ('payloads_unchanged', 'final(self).published_objects@ == old(self).published_objects@'),
+                 ('keeps_unexpired_revocations', 'r is Ok ==> forall |s: Serial, t: Time| rev_has(old(self).revocations, s, t) && !expired(t) ==> #[trigger] rev_has(final(self).revocations, s, t)'),
+                 ('revokes_nothing_new', 'r is Ok ==> forall |s: Serial, t: Time| #[trigger] rev_has(final(self).revocations, s, t) ==> rev_has(old(self).revocations, s, t)'),
                  ('crl_from_own_revocations', 'r is Ok ==> crl_revocations(final(self).crl) == final(self).revocations'),
                  ('manifest_lists_crl_and_objects', 'r is Ok ==> mft_entries(final(self).manifest) == expected_entries(final(self).crl, final(self).published_objects@)'),
              ]),
